@@ -30,7 +30,8 @@ class PTask:
     """One pyvc task: a harness function explored over all paths."""
 
     def __init__(self, name, fn, functions=(), deciding=False, replay_kind=None, settings=None, timeout_ms=60000,
-                 min_return_paths=1, bounded=False, note=""):
+                 min_return_paths=1, bounded=False, note="", replay_payload=None):
+        self.replay_payload = replay_payload or {}
         self.name = name
         self.fn = fn
         self.functions = list(functions)
@@ -62,6 +63,7 @@ def run_pyvc_check(prop, tier, seed, ptasks, assumptions, checker_cmd, extra_cov
     specs = [TaskSpec(t.name, mk_runner(t), t.functions, t.bounded, t.note) for t in ptasks]
     outcomes = run_tasks(specs)
     res = CheckResult(prop)
+    bounded_done = {}
     named = summarize_outcomes(outcomes)
     n_obl = len(named)
     n_dis = 0
@@ -70,10 +72,24 @@ def run_pyvc_check(prop, tier, seed, ptasks, assumptions, checker_cmd, extra_cov
     functions = set()
     for o in sorted(outcomes, key=lambda x: x["name"]):
         functions.update(o.get("functions", []))
-        if o["status"] == "unsupported":
-            res.undecided.append("%s: %s" % (o["name"], o["message"]))
-        elif o["status"] == "shape-mismatch":
-            res.undecided.append("%s: %s" % (o["name"], o["message"]))
+        if o["status"] in ("unsupported", "shape-mismatch"):
+            # the body left the accepted subset (or the contract no longer matches its shape): nothing is proved.
+            # Bounded stand-in: the property-level predicate is evaluated natively over a small structured pool;
+            # a failure there is a real failing input, a pass proves nothing (undecided).
+            t = by_name.get(o["name"])
+            key = (t.replay_kind, json.dumps(t.replay_payload, sort_keys=True)) if t is not None else None
+            if t is not None and t.replay_kind and key not in bounded_done:
+                payload = dict(t.replay_payload)
+                payload.update({"obligation": o["name"], "model": {}})
+                bounded_done[key] = native_replay(prop, t.replay_kind, payload)
+            rp = bounded_done.get(key) if key else None
+            if rp and rp.get("confirmed"):
+                rec = {"property": prop, "obligation": o["name"] + "/bounded-stand-in", "reason": o["message"], "native": rp,
+                       "replay_kind": t.replay_kind, "model": {}, "bounded": True}
+                path = write_replay_file(prop, o["name"], rec)
+                if not any(v[0].endswith("/bounded-stand-in") for v in res.violations):
+                    res.violations.append((o["name"] + "/bounded-stand-in", path, ""))
+            res.undecided.append("%s: %s%s" % (o["name"], o["message"], " [bounded stand-in: %s]" % (rp.get("note") or "failing input found") if rp else ""))
         elif o["status"] == "error":
             res.errors.append("%s: %s" % (o["name"], (o["message"] or "")[:1500]))
     for name, n in sorted(named.items()):
@@ -95,7 +111,9 @@ def run_pyvc_check(prop, tier, seed, ptasks, assumptions, checker_cmd, extra_cov
                    "replay_kind": t.replay_kind if t else None}
             confirmed = None
             if t is not None and t.replay_kind and model is not None:
-                rp = native_replay(prop, t.replay_kind, {"obligation": name, "model": model})
+                payload = dict(t.replay_payload)
+                payload.update({"obligation": name, "model": model})
+                rp = native_replay(prop, t.replay_kind, payload)
                 rec["native"] = rp
                 confirmed = rp.get("confirmed")
             path = write_replay_file(prop, name, rec)
